@@ -1,5 +1,6 @@
 import Pamqp.Model.DecodeCost
 import Pamqp.Spec.Defs
+import Pamqp.Proofs.Cost
 /-!
 # C08, main clause — the NUMBER OF DECODING STEPS is linear in the input length
 `DecodeCost.*` is the recursive decoder with a step counter (one step per decoder call and per
@@ -12,14 +13,14 @@ open Pamqp
 
 /-- the instrumented decoder computes what the model computes -/
 theorem C08_cost_same_result (f : Nat) (bs : Bytes) : (DecodeCost.embedded f bs).1 = Decode.embedded f bs := by
-  sorry
+  exact (Proofs.cost_same_result f).1 bs
 
 /-- linear step bound, for every byte string and every fuel -/
 theorem C08_steps_linear (f : Nat) (bs : Bytes) : (DecodeCost.embedded f bs).2 ≤ 4 * bs.length + 4 := by
-  sorry
+  have := Proofs.embedded_steps f bs; omega
 
 theorem C08_table_steps_linear (f : Nat) (bs : Bytes) :
     (DecodeCost.fieldTable f bs).2 ≤ 4 * bs.length + 4 ∧ (DecodeCost.fieldArray f bs).2 ≤ 4 * bs.length + 4 := by
-  sorry
+  have := Proofs.fieldTable_steps f bs; have := Proofs.fieldArray_steps f bs; omega
 
 end Pamqp.Props
